@@ -285,6 +285,18 @@ def run_shard(ctx):
         xi_arg = xi
         if xi == 0.0 and rng.random() < 0.5:
             xi_arg = 0                   # the lower end of the damping range passed as a Python int
+        elif rng.random() < 0.1:
+            xi_arg = [np.float64(xi), np.array(xi)][int(rng.integers(2))]
+        # scalar forms of the step: numpy scalars and (mutable) 0-d arrays; the 0-d array must come back unchanged
+        dt_float = dt
+        r_dt = rng.random()
+        if r_dt < 0.05:
+            dt = np.float64(dt)
+        elif r_dt < 0.12:
+            dt = np.array(float(dt))
+        elif r_dt < 0.15:
+            dt = np.float32(dt)
+            dt_float = float(dt)
         before = (core.digest(np.asarray(cont)), core.digest(np.asarray(pcont)))
         nontriv = bool(np.any(np.asarray(cont, dtype=float) != 0)) and bool(np.any(periods > 0))
         ctx.case(core.digest(np.asarray(cont, dtype=float), dt, periods, xi, entry), nontrivial=nontriv,
@@ -343,8 +355,10 @@ def run_shard(ctx):
                     asig.response_series()       # default xi
         except Exception as e:
             ctx.exception('shape+finite', _wit(cont, dt, periods, xi, ['response_series', 'nj', 'object'][entry]), e)
-        ctx.check((core.digest(np.asarray(cont)), core.digest(np.asarray(pcont))) == before, 'arguments-unchanged',
-                  lambda: _wit(cont, dt, periods, xi, 'purity'), 'record or period container modified by the call')
+        ctx.check((core.digest(np.asarray(cont)), core.digest(np.asarray(pcont))) == before and float(dt) == dt_float
+                  and float(xi_arg) == xi, 'arguments-unchanged',
+                  lambda: _wit(cont, dt, periods, xi, 'purity', dt_given=dt_float, dt_form=type(dt).__name__),
+                  'record, period container, or a step / damping given as a 0-d array modified by the call (dt %r -> %r)' % (dt_float, float(dt)))
     ctx.note('monitored_calls', dict(attach.CALLS))
 
 
